@@ -8,7 +8,7 @@ from c01 import COMPONENTS, DRIVERS, TB, ASSUME
 def run(ctx):
     ctx.trusted_base = TB
     ctx.assumptions = ASSUME + ['fair OS scheduling; finitely many deliveries (the property states this)',
-                                'fair termination for all k-fair schedules is composed from the proved lemmas on paper (DESIGN 5.18), not mechanised']
+                                'the pool is finite and fixed during the rounds (no further deliveries or calls arrive), as the property states']
     if not ctx.harness(['ls_registry', 'sh_probe']):
         return
     ctx.translate(COMPONENTS)
